@@ -29,7 +29,8 @@ GlobalGraph::GlobalGraph(bool directed_p) :
 
 GlobalGraph::GlobalGraph(const GlobalGraph& gg) :
   directed_(gg.directed_),
-  observers_(gg.observers_),
+  // the observers of gg observe gg, not its copy
+  observers_(set<GraphObserver*>()),
   highestNodeID_(gg.highestNodeID_),
   highestEdgeID_(gg.highestEdgeID_),
   nodeStructure_(gg.nodeStructure_),
@@ -39,13 +40,23 @@ GlobalGraph::GlobalGraph(const GlobalGraph& gg) :
 
 GlobalGraph& GlobalGraph::operator=(const GlobalGraph& gg)
 {
+  if (this == &gg)
+    return *this;
+
+  // the observers of this graph stay its observers (those of gg observe gg);
+  // they are told that the former edges and nodes are gone
+  vector<Graph::EdgeId> formerEdges = getAllEdges();
+  vector<Graph::NodeId> formerNodes = getAllNodes();
+
   directed_ = gg.directed_;
-  observers_ = gg.observers_;
   highestNodeID_ = gg.highestNodeID_;
   highestEdgeID_ = gg.highestEdgeID_;
   nodeStructure_ = gg.nodeStructure_;
   edgeStructure_ = gg.edgeStructure_;
   root_ = gg.root_;
+
+  notifyDeletedEdges(formerEdges);
+  notifyDeletedNodes(formerNodes);
 
   return *this;
 }
